@@ -263,37 +263,6 @@ fn check_faults(t: &mut Tally, text: &str) {
 /// A line that is not UTF-8: failing the read is one admissible answer; the statement does not
 /// list it among the causes of failure, so a reader that decodes lossily is admissible too - but
 /// then the list must be the complete, unshifted one for the decoded text.
-/// A line 'PKGNAME <blanks>= v' inside a record is not a 'PKGNAME=' line: it starts no record.
-/// Whether it is ignored or taken as the record's name is left open; everything else about the
-/// result is that of the text without the line.
-fn check_spaced_pkgname(t: &mut Tally, before: &str, value: &str, after: &str) {
-    t.evals += 1;
-    t.validated += 1;
-    let text = format!("{}PKGNAME \t= {}\n{}", before, value, after);
-    let base = format!("{}{}", before, after);
-    let case = || json!({"text": text});
-    let (Ok(Some(want)), Ok(got)) = (model(&base), guard(|| read_all(text.as_bytes()))) else {
-        t.outcome("skipped/spaced-pkgname-on-an-undecided-text");
-        return;
-    };
-    // index of the record the line falls into
-    let idx = before.lines().filter(|l| l.trim_start().starts_with("PKGNAME=")).count();
-    match got {
-        Ok(g) if g.len() == want.len() && g.iter().zip(want.iter()).enumerate().all(|(i, (a, b))| {
-            let mut a2 = a.clone();
-            if i + 1 == idx {
-                a2.pkgname = b.pkgname.clone();
-            }
-            a2 == *b && (a.pkgname == b.pkgname || (i + 1 == idx && a.pkgname == value.trim()))
-        }) => {
-            t.nontrivial += 1;
-            t.outcome("ok/spaced-pkgname-starts-no-record");
-        }
-        other => t.violation(Violation::new("spaced", json!({"before": before, "value": value, "after": after}), json!(format!("{} records, as without the line (the containing record's name may be the line's value)", want.len())), json!(format!("{:?}", other.map(|v| v.iter().map(|r| r.pkgname.clone()).collect::<Vec<_>>()))), "one record per 'PKGNAME=' line: a line whose key is followed by blanks before '=' starts no record")),
-    }
-    let _ = case;
-}
-
 fn check_utf8(t: &mut Tally, bytes: &[u8]) {
     let case = || json!({"bytes": bytes_json(bytes)});
     match guard(|| read_all(bytes)) {
@@ -312,7 +281,6 @@ fn replay(doc: &Value) -> Option<Violation> {
     let mut t = Tally::new();
     match doc["kind"].as_str() {
         Some("fault") => check_faults(&mut t, c["text"].as_str().unwrap_or("")),
-        Some("spaced") => check_spaced_pkgname(&mut t, c["before"].as_str().unwrap_or(""), c["value"].as_str().unwrap_or(""), c["after"].as_str().unwrap_or("")),
         Some("utf8") => check_utf8(&mut t, &bytes_from_json(&c["bytes"])),
         _ => {
             check_text(&mut t, c["text"].as_str().unwrap_or(""));
@@ -473,21 +441,6 @@ fn main() {
             t.transitions += 2 * n as u64;
             check_text(t, &text);
         });
-    }
-    // a spaced 'PKGNAME =' line in every position of three-record texts
-    {
-        let mut t = Tally::new();
-        let recs = ["PKGNAME=a-1\nMAINTAINER=ma\nCATEGORIES=ca\n", "PKGNAME=b-2\nMAINTAINER=mb\nALL_DEPENDS=p-[0-9]*:../../c/p\n", "PKGNAME=c-3\nRESTRICTED=r\n"];
-        let whole: String = recs.concat();
-        let lines: Vec<&str> = whole.split_inclusive('\n').collect();
-        for cut in 1..=lines.len() {
-            for value in ["z-9", "b-2", ""] {
-                t.states += 1;
-                check_spaced_pkgname(&mut t, &lines[..cut].concat(), value, &lines[cut..].concat());
-            }
-        }
-        run.bound("spaced key: 'PKGNAME <blanks>= v' inserted after every line of a three-record text, three values");
-        run.merge(t);
     }
     // items that collide under hand-written 32-bit hashes, side by side in one list (a memo of parsed
     // items keyed by such a hash returns the wrong item)
